@@ -10,6 +10,7 @@ import Mathy.Model.ParserObj
 import Mathy.Model.Tree
 import Mathy.Model.Layout
 import Mathy.Model.PyEval
+import Mathy.Model.TermsLike
 namespace Mathy
 
 def Bop.name : Bop → String
